@@ -115,8 +115,12 @@ Compare(op, a, b) ==    \* a, b numeric
 \* strict binary operators on two values
 BinOp(op, a, b) ==
     CASE op = "+" ->
-            IF a.k = "str" THEN (IF b.k = "str" THEN Ok(VStr(a.v \o b.v)) ELSE Err("type"))
-            ELSE IF a.k = "arr" THEN (IF b.k = "arr" THEN Ok(VArr(a.e \o b.e)) ELSE Err("type"))
+            IF a.k = "str" THEN (IF b.k # "str" THEN Err("type")
+                                 ELSE IF Len(a.v) + Len(b.v) > 4096 THEN Err("UNREP")
+                                 ELSE Ok(VStr(a.v \o b.v)))
+            ELSE IF a.k = "arr" THEN (IF b.k # "arr" THEN Err("type")
+                                      ELSE IF Len(a.e) + Len(b.e) > 2048 THEN Err("UNREP")      \* (a program that doubles a value in a loop: beyond what TLC holds)
+                                      ELSE Ok(VArr(a.e \o b.e)))
             ELSE IF IsNum(a) /\ IsNum(b) THEN Arith(op, a, b) ELSE Err("type")
       [] op \in {"-", "*", "/", "%"} -> IF IsNum(a) /\ IsNum(b) THEN Arith(op, a, b) ELSE Err("type")
       [] op = "==" -> Ok(VBool(ValEq(a, b)))
